@@ -155,6 +155,13 @@ func vfGSParams(name string) GossipSubParams {
 	case "d2og":
 		p.D, p.Dlo, p.Dhi, p.Dscore, p.Dout = 2, 1, 3, 1, 0
 		p.OpportunisticGraftTicks = 1
+	case "d2og0":
+		// opportunistic grafting "disabled" by a zero period: accepted by validate()
+		p.D, p.Dlo, p.Dhi, p.Dscore, p.Dout = 2, 1, 3, 1, 0
+		p.OpportunisticGraftTicks = 0
+	case "d2dc0":
+		p.D, p.Dlo, p.Dhi, p.Dscore, p.Dout = 2, 1, 3, 1, 0
+		p.DirectConnectTicks = 0
 	case "default":
 		p = DefaultGossipSubParams()
 		p.Connectors = 1
